@@ -278,3 +278,19 @@ v('c02-no-push', ['C02'], RX, "                    let d = self.set_derivative_u
 v('c02-class-next-swap', ['C02'], AUF, "            ClassId::Interval(i) => s.successor[i],\n            ClassId::Complement => s.default_successor.unwrap(),\n        };\n        &self.states[i]", "            ClassId::Interval(i) => s.successor[s.successor.len() - 1 - i],\n            ClassId::Complement => s.default_successor.unwrap(),\n        };\n        &self.states[i]", 'C02.R6/class_next')
 v('c02-accepts-initial', ['C02'], AUF, "self.str_next(self.initial_state(), str).is_final", "self.str_next(&self.states[0], str).is_final", 'C02.R6/accepts')
 v('c02-next-class', ['C02'], AUF, "        let cid = s.classes.class_of_char(c);\n        self.class_next(s, cid)", "        let cid = self.initial_state().classes.class_of_char(c);\n        self.class_next(s, cid)", 'C02.R6/next')
+
+# ---- C05
+LQF = 'src/labeled_queues.rs'
+v('c05-empty-any', ['C05'], RX, "self.iter_derivatives(e).all(|x| !x.nullable)", "self.iter_derivatives(e).any(|x| !x.nullable)", 'C05.R1')
+v('c05-push-swapped', ['C05'], RX, "                    queue.push(r, cid, d);", "                    queue.push(d, cid, r);", 'C05.R2')
+v('c05-queue-insert-always', ['C05'], LQF, """        match self.map.get(&suc) {
+            Some(..) => false,
+            None => {""", """        match self.map.get(&pre) {
+            Some(..) => false,
+            None => {""", 'C05.R4/LabeledQueue::push')
+v('c05-rep-of-other-class', ['C05'], RX, ".map(|(re, cid)| re.pick_class_rep(*cid))", ".map(|(re, _cid)| re.pick_class_rep(ClassId::Complement))", 'C05.R3')
+v('c05-path-of-root', ['C05'], RX, "                return queue.full_path(&r);", "                return queue.full_path(&e);", 'C05.R2')
+v('c05-nullable-after', ['C05'], RX, "            if r.nullable {\n                return queue.full_path(&r);\n            } else {", "            if r.nullable && r.id > e.id {\n                return queue.full_path(&r);\n            } else {", 'C05.R2')
+v('c05-no-reverse', ['C05'], LQF, "            .map(|(node, label)| (node.clone(), label.clone()))\n            .collect();\n        result.reverse();", "            .map(|(node, label)| (node.clone(), label.clone()))\n            .collect();", 'C05.R4/LabeledQueue::make_path')
+v('c05-edge-iter-stuck', ['C05'], LQF, "self.last_edge = self.queue.map.get(node).unwrap();\n                Some((node, label))", "Some((node, label))", 'C05.R4/EdgeIterator')
+v('c05-pop-back', ['C05'], LQF, "    pub fn pop(&mut self) -> Option<T> {\n        self.queue.pop_front()", "    pub fn pop(&mut self) -> Option<T> {\n        self.queue.pop_back()", 'C05.R4/LabeledQueue::pop')
